@@ -287,6 +287,24 @@ impl Polynomial<Cmplx> {
                     ad_v[jj] = ad[jj];
                 }
                 Self::laguer( &mut ad_v, &mut x, &mut its );
+                // For a sparse polynomial such as x^n - c every derivative vanishes at the origin and
+                // Laguerre's iteration started there can oscillate between huge and tiny iterates and
+                // give up far from any root. If the value returned is not a zero of the deflated
+                // polynomial to within (a generous multiple of) its evaluation error, restart on the
+                // circle whose radius is the geometric mean of the root moduli.
+                let mut pz = ad_v[ j + 1 ];
+                let mut bound = pz.abs();
+                for jj in (0..j+1).rev() {
+                    pz = x * pz + ad_v[ jj ];
+                    bound = pz.abs() + x.abs() * bound;
+                }
+                if !( bound.is_finite() && pz.abs() <= 1.0e8 * eps * bound ) {
+                    let radius = ( ad_v[ 0 ].abs() / ad_v[ j + 1 ].abs() ).powf( 1.0 / ( ( j + 1 ) as f64 ) );
+                    if radius.is_finite() {
+                        x = Cmplx::polar( radius, 1.0 );
+                        Self::laguer( &mut ad_v, &mut x, &mut its );
+                    }
+                }
                 if x.imag.abs() <= 2.0 * eps * x.real.abs() {
                     x = Cmplx::new( x.real, 0.0 );
                 }
